@@ -2268,6 +2268,11 @@ func (k *Kernel) handleReplayedHeader(
 	// TODO: did we confirm the voting validator set matches replayed?
 	s.Voting.VoteSummary.SetPrecommitPowers(s.Voting.ValidatorSet.Validators, s.Voting.PrecommitProofs)
 
+	// The voting view changed, so its consumers are due an update
+	// even if the view does not shift below
+	// (it does not if a different target holds the majority and its block is unavailable).
+	s.MarkVotingViewUpdated()
+
 	// Since this was a replayed header and we know it was in the voting round,
 	// we must have added precommits.
 	// Update the store with whatever the new set of precommits is.
